@@ -291,7 +291,7 @@ static ReadOut observe_sketch(const VO& s, SkModel& m, const char* after) {
   for (uint64_t id : touched) adj_scratch[id] = -1.0;
   check_subset_sums(s, fam, m.total, m.exact_arith, ro, ctx);
   if (m.n > m.k) count("obs_sampling_mode"); else count("obs_exact_mode");
-  sig(mix64(mix64(m.k, m.n), mix64(ro.items.size(), static_cast<uint64_t>(ro.tau * 1024))));
+  sig(mix64(mix64(m.k, m.n), mix64(ro.items.size(), dbits(std::floor(ro.tau * 1024)))));
   return ro;
 }
 
